@@ -21,6 +21,9 @@ CLAIMED = {
  "C17": ("exhaustive enumeration of single-query pairs/triples/list pairs (quick) plus proptest-generated list pairs/triples (thorough); oracle = independent media-query parser and truth-table evaluator over media type x feature assignments",
          "Quick tier enumerates its finite domain completely (exhaustive: true); thorough adds sampled list pairs/triples. Holds for the bounded query alphabet only.",
          "2/C17"),
+ "C18": ("metamorphic pairs over proptest-generated sources: rule trees through two independent printers (SCSS / indented), generated plain CSS parsed as CSS vs SCSS, 30 Sass-only constructs that CSS mode must reject, and token-preserving rewrites (LF/CRLF/CR/FF, BOM, @charset, whitespace + silent comments at safe gaps, _/- in names) of corpus entries, value-heavy sheets and rule trees; oracle = byte-identical CSS or both fail",
+         "Sampling of sources and rewrites with shrinking; a green run means every explored pair agreed.",
+         "2/C18"),
  "C04": ("proptest-generated rule trees (style rules with & in every position, nested properties, @media/@supports/unknown at-rules, @at-root with/without queries); oracle = independent hand-flattening model compared as multiset, per at-rule-path order and global order",
          "Sampling of rule trees with shrinking; a green run means flattening agreed with the model on every generated tree (bounded depth 4 / width 3).",
          "2/C04"),
